@@ -188,6 +188,23 @@ def delegate_checks(ctx):
                               % (list(p.values), level, got, slope))
             else:
                 n_ok += 1
+    # ... and on a noisy series (smoothing level well below 1, so that the length of the series enters the drift): the
+    # forecasts do not depend on where the integer time index starts
+    for si in range(2 if ctx.quick else 6):
+        r3 = np.random.RandomState(ctx.seed * 10 + 50 + si)
+        yv = 50 + 0.3 * t + 8 * r3.randn(n)
+        ctx.evaluations += 1
+        sc = {"delegate": "ThetaForecaster", "noisy": True, "series": si}
+        try:
+            ps = [ThetaForecaster(sp=1).fit(pd.Series(yv, index=pd.RangeIndex(o_, o_ + n))).predict([1, 2, 3, 6]) for o_ in (0, 9)]
+            if not np.allclose(ps[0].values, ps[1].values, rtol=1e-9, atol=1e-9) or \
+                    [int(i) - 9 for i in ps[1].index] != [int(i) for i in ps[0].index]:
+                ctx.violation(sc, "ShiftInvariance: theta forecasts %s for a series starting at 0, %s for the same values starting at 9"
+                              % (list(ps[0].values), list(ps[1].values)))
+            else:
+                n_ok += 1
+        except Exception as e:
+            ctx.violation(sc, "delegate crash %s: %s" % (type(e).__name__, str(e)[:120]))
     # AutoETS(auto=True): the reported model is the candidate with the least information criterion among the
     # documented candidate set (non-seasonal: error x trend x damped), each fitted by statsmodels with its own options
     lvl = 100 - 60 * 0.75 ** t          # a trend that levels off: damped candidates matter
